@@ -6,23 +6,28 @@ import NurbsVerif.Lemmas.ConfigEval
 import NurbsVerif.Lemmas.ConfigSplit
 import NurbsVerif.Lemmas.ConfigSpanBin
 import NurbsVerif.Lemmas.ConfigWitness
+import NurbsVerif.Lemmas.ConfigEvalCoded
+import NurbsVerif.Lemmas.FitParams
 
 /-!
 # C17  Results do not depend on configuration choices
 
 * span search function: `findSpanBin = findSpanLinear` (also listed under C03);
-* evaluator variant: both derivative evaluators are tied to one model function (C02 correspondence);
+* evaluator variant: the derivative evaluators AS CODED agree (`curveDersA32` = `CurveEvaluator` / `curveDersAt` =
+  `CurveEvaluator2`; `surfaceDersA36` = `SurfaceEvaluator` / `surfaceDersA38` = `SurfaceEvaluator2`, where the latter
+  computes an entry);
 * knot range: evaluation with knots `a•U + b` at `a·u + b` equals evaluation with `U` at `u`;
 * memoisation: an LRU cache of ANY capacity in front of a function is transparent for EVERY call
   history (what makes answers independent of `GEOMDL_CACHE_SIZE`);
-* worker processes: an order-preserving map is `List.map` (runtime part checked by the harness);
+* worker processes: no theorem (an order-preserving map is `List.map`; checked at run time by the harness);
 * derivatives and the knot range: entry `k` of every derivative list picks up `a⁻ᵏ` (chain rule), basis tables,
-  surfaces (`a₁⁻ᵏ·a₂⁻ˡ`), rational derivatives; normalised knot vectors: factor `(last - first)ᵏ`;
-* evaluator family: A3.2 over A2.3 as coded = A3.3/A3.4; A3.8 = A3.6 where it computes an entry;
+  surfaces (`a₁⁻ᵏ·a₂⁻ˡ`), rational derivatives – for the DEFAULT evaluators as coded (`default_*_affine_knots`) and for
+  the A3.3/A3.4 model `curveDers` / the tensor model `surfaceDersAt`; normalised knot vectors: factor `(last - first)ᵏ`;
 * knot operations and the knot range: insertion, removal, refinement (helper level and one direction of the
   object-level operations) return the same control points and the mapped knot vectors; splitting returns
   identical pieces;
-* the binary span search returns (never runs out of fuel) on the whole domain.
+* the binary span search returns (never runs out of fuel) on the whole domain, for tolerances `0 < tol < 1/2` (the
+  range on which the model's start index is the code's `int(round((low+high)/2 + tol))`).
 
 `scaleJet c L` is the list `L` with entry `k` multiplied coordinatewise by `cᵏ`; `scaleJet2 cu cv T` the table `T`
 with entry `[k][l]` multiplied by `cuᵏ·cvˡ`; `Shape.affineKv S dir a b` the shape `S` with the knot vector of
@@ -32,11 +37,15 @@ namespace C17
 open Geomdl Blossom
 variable {K : Type} [Field K] [LinearOrder K] [IsStrictOrderedRing K]
 
+/-- span search function: on the domain of a sorted knot vector the binary search returns the span of the linear
+    search, for every tolerance `0 < tol < 1/2` (`htol`, `htol2`: only there is the model's start index `(p+n+1)/2`
+    the code's `int(round((low+high)/2 + tol))`; with `tol ≥ 1/2` the real code starts further right and may raise
+    `IndexError`) outside the F-17b case (`hend`). -/
 theorem span_search_choice (p : ℕ) (U : ℕ → K) (n : ℕ) (u tol : K) (hpn : p + 1 ≤ n)
-    (hm : Monotone U) (hlo : U p ≤ u) (hhi : u ≤ U n) (htol : 0 ≤ tol)
+    (hm : Monotone U) (hlo : U p ≤ u) (hhi : u ≤ U n) (htol : 0 < tol) (htol2 : 2 * tol < 1)
     (hend : absK (U n - u) ≤ tol → U (n - 1) ≤ u) :
     findSpanBin p U n u tol = some (findSpanLinear p U n u) :=
-  findSpanBin_eq_linear p U n u tol hpn hm hlo hhi htol hend
+  findSpanBin_eq_linear p U n u tol hpn hm hlo hhi htol.le hend
 
 /-- knot range: span search … -/
 theorem span_affine_knots (p : ℕ) (U : ℕ → K) (n : ℕ) (u a b : K) (ha : 0 < a) :
@@ -115,8 +124,9 @@ example : LRU.run (fun n : ℕ => n * n) (LRU.mk 1 []) [2, 3, 2, 3] = [4, 9, 4, 
 
 /-! ### derivatives under an affine change of the knot range -/
 
-/-- **Derivatives, chain rule (curves).**  `Curve.derivatives` (span search + A3.3/A3.4) with knots `a•U + b`
-    (`a > 0`) at the parameter `a·u + b`: the whole list `[C, C', C'', …]` is the list for `U` at `u` with
+/-- **Derivatives, chain rule (curves), A3.3/A3.4.**  `CurveEvaluator2.derivatives` (model `curveDers`: span search +
+    A3.3/A3.4 – the ALTERNATIVE evaluator; the default of `BSpline.Curve` / `NURBS.Curve` is A3.2, see
+    `default_curve_derivatives_affine_knots`) with knots `a•U + b` (`a > 0`) at the parameter `a·u + b`: the whole list `[C, C', C'', …]` is the list for `U` at `u` with
     entry `k` multiplied by `a⁻ᵏ` – every requested order, every degree, net and parameter (also orders
     above the degree: both sides zero). -/
 theorem curve_derivatives_affine_knots (p : ℕ) (U : ℕ → K) (P : List (List K)) (u : K) (order : ℕ) (a b : K)
@@ -137,8 +147,11 @@ theorem curve_derivatives_on_span_affine_knots (p : ℕ) (U : ℕ → K) (P : Li
     curveDersAt p (fun i => a * U i + b) P span (a * u + b) order = scaleJet a⁻¹ (curveDersAt p U P span u order) :=
   curveDersAt_affine p U P span u order a b ha
 
-/-- The A3.3 derivative control points (`helpers.curve_deriv_cpts`) of level `k` pick up `a⁻ᵏ`. -/
-theorem derivative_control_points_affine_knots (p : ℕ) (U : ℕ → K) (P : List (List K)) (r1 r2 d : ℕ) (a b : K) (k : ℕ) :
+/-- The A3.3 derivative control points (`helpers.curve_deriv_cpts`) of level `k` pick up `a⁻ᵏ` (`a ≠ 0`: for `a = 0` all
+    knots coincide and the code raises `ZeroDivisionError`; the identity would hold in the model only through
+    `x / 0 = 0 = 0⁻¹`). -/
+theorem derivative_control_points_affine_knots (p : ℕ) (U : ℕ → K) (P : List (List K)) (r1 r2 d : ℕ) (a b : K) (k : ℕ)
+    (ha : a ≠ 0) :
     (curveDerivCpts p (fun i => a * U i + b) P r1 r2 d).getD k []
       = ((curveDerivCpts p U P r1 r2 d).getD k []).map (vsmul (a⁻¹ ^ k)) :=
   curveDerivCpts_affine p U P r1 r2 d a b k
@@ -154,8 +167,10 @@ theorem a23_as_coded_affine_knots (p : ℕ) (U : ℕ → K) (κ : ℕ) (u : K) (
     basisFunsDersA23 p (fun i => a * U i + b) κ (a * u + b) d = scaleJet a⁻¹ (basisFunsDersA23 p U κ u d) :=
   basisFunsDersA23_affine p U κ u d a b ha hd hp
 
-/-- **Derivatives, chain rule (surfaces).**  `Surface.derivatives` (span search in both directions, both
-    evaluator variants) with knots `a₁•Uu + b₁`, `a₂•Uv + b₂` at `(a₁·u + b₁, a₂·v + b₂)`: entry `[k][l]` is the entry
+/-- **Derivatives, chain rule (surfaces), tensor model.**  The model `surfaceDersAt` of `Surface.derivatives` (span
+    search in both directions; `tri = false` is the table A3.6 as coded returns, `tri = true` the one A3.7 + A3.8 return –
+    C02 `a36_as_coded_is_the_tensor_formula`, `a38_as_coded_is_the_triangular_table`; for A3.6 as coded directly see
+    `default_surface_derivatives_affine_knots`) with knots `a₁•Uu + b₁`, `a₂•Uv + b₂` at `(a₁·u + b₁, a₂·v + b₂)`: entry `[k][l]` is the entry
     for `Uu`, `Uv` at `(u, v)` multiplied by `a₁⁻ᵏ·a₂⁻ˡ`. -/
 theorem surface_derivatives_affine_knots (pu pv : ℕ) (Uu Uv : ℕ → K) (su sv : ℕ) (P : List (List K)) (u v : K)
     (order : ℕ) (tri : Bool) (a1 b1 a2 b2 : K) (h1 : 0 < a1) (h2 : 0 < a2) :
@@ -196,8 +211,9 @@ theorem a44_commutes_with_scaling (cu cv : K) (SKLw : List (List (List K))) (ord
     ratSurfaceDers (scaleJet2 cu cv SKLw) order = scaleJet2 cu cv (ratSurfaceDers SKLw order) :=
   ratSurfaceDers_scale cu cv SKLw order
 
-/-- **Rational curve derivatives** (`Curve.derivatives` of a NURBS curve: span search, A3.4 on the homogeneous
-    net, A4.2) scale the same way: entry `k` picks up `a⁻ᵏ`. -/
+/-- **Rational curve derivatives, A3.3/A3.4 + A4.2** (`CurveEvaluator2` table on the homogeneous net, then A4.2; the
+    default NURBS evaluator runs A3.2 instead – same values on the domain, `curve_evaluators_as_coded_agree`) scale the
+    same way: entry `k` picks up `a⁻ᵏ`. -/
 theorem rational_curve_derivatives_affine_knots (p : ℕ) (U : ℕ → K) (Pw : List (List K)) (u : K) (order : ℕ)
     (a b : K) (ha : 0 < a) :
     ratCurveDers (curveDers p (fun i => a * U i + b) Pw (a * u + b) order)
@@ -246,26 +262,56 @@ theorem surface_derivatives_normalized_knots (pu pv : ℕ) (Uul Uvl : List K) (s
 
 /-! ### evaluator family -/
 
-/-- **Both curve evaluator families return the same derivative vectors.**  A3.2 over the table of A2.3 as
-    coded (`CurveEvaluator.derivatives`: `CK[k] = Σ_r ders[k][r]·P[κ-p+r]`, table requested up to `d ≤ p`) and
-    A3.3/A3.4 (`CurveEvaluator2.derivatives`, model `curveDersAt`, any requested `order`) agree in every
-    coordinate for every `k ≤ d`, `k ≤ order` – both are the true derivative of the span polynomial
-    (C02 `a32_with_a23_is_true_derivative`, `curve_derivatives_are_true_derivatives`).  Sorted knots,
-    non-empty span `κ ≥ p`. -/
-theorem curve_evaluator_families_agree (p : ℕ) (U : ℕ → K) (P : List (List K)) (κ : ℕ) (u : K) (dim d order k j : ℕ)
-    (hd : d ≤ p) (hp : p ≤ κ) (hκ : κ < P.length) (hP : NetOk dim P) (hm : Monotone U) (hspan : U κ < U (κ+1))
-    (hk : k ≤ d) (hko : k ≤ order) :
-    ∑ r ∈ Finset.range (p+1), ((basisFunsDersA23 p U κ u d).getD k []).getD r 0 * (ptsGet P (κ - p + r)).getD j 0
-      = ((curveDersAt p U P κ u order).getD k []).getD j 0 :=
-  curve_evaluators_agree p U P κ u dim d order k j hd hp hκ hP hm hspan hk hko
+/-- **Both curve evaluators AS CODED return the same derivative vectors.**  `CurveEvaluator.derivatives` (A3.2 over
+    A2.3, model `curveDersA32`, the default) and `CurveEvaluator2.derivatives` (A3.3/A3.4, model `curveDersAt`) agree
+    in every coordinate for EVERY `k ≤ order` (also above the degree: both zero) – both are the true derivative of the
+    span polynomial (C02 `a32_as_coded_is_true_derivative`, `curve_derivatives_are_true_derivatives`).  Sorted knots,
+    non-empty span `κ ≥ p` inside the net. -/
+theorem curve_evaluators_as_coded_agree (p : ℕ) (U : ℕ → K) (P : List (List K)) (κ : ℕ) (u : K) (d j order k : ℕ)
+    (hp : p ≤ κ) (hκ : κ < P.length) (hP : NetOk d P)
+    (hm : Monotone U) (hspan : U κ < U (κ+1)) (hk : k ≤ order) :
+    ((curveDersA32 p U P κ u order).getD k []).getD j 0 = ((curveDersAt p U P κ u order).getD k []).getD j 0 :=
+  Geomdl.curve_evaluators_as_coded_agree p U P κ u d j order k hp hκ hP hm hspan hk
 
-/-- **Both surface evaluator variants return the same entries** wherever `SurfaceEvaluator2` computes one
-    (`k + l ≤ order`; its other entries stay zero, C02 `surface_derivatives_triangular_rest_zero`). -/
-theorem surface_evaluator_variants_agree (pu pv : ℕ) (Uu Uv : ℕ → K) (sv : ℕ) (P : List (List K)) (κu κv : ℕ) (u v : K)
-    (order k l : ℕ) (hkl : k + l ≤ order) :
-    ((surfaceDersAt pu pv Uu Uv sv P κu κv u v order true).getD k []).getD l []
-      = ((surfaceDersAt pu pv Uu Uv sv P κu κv u v order false).getD k []).getD l [] :=
-  surface_evaluators_agree pu pv Uu Uv sv P κu κv u v order k l hkl
+/-- **Both surface evaluators AS CODED return the same entries** wherever `SurfaceEvaluator2` computes one:
+    `SurfaceEvaluator2.derivatives` (A3.7 + A3.8, model `surfaceDersA38`) and `SurfaceEvaluator.derivatives` (A3.6,
+    model `surfaceDersA36`, the default) agree in entry `[k][l]` for `k + l ≤ order`; the other entries of A3.8 stay
+    zero (C02 `a38_as_coded_rest_zero`) while A3.6 fills them.  Sorted knots, non-empty span pair inside the net. -/
+theorem surface_evaluators_as_coded_agree (pu pv : ℕ) (Uu Uv : ℕ → K) (su sv : ℕ) (P : List (List K))
+    (κu κv : ℕ) (u v : K) (d order k l : ℕ)
+    (hpu : pu ≤ κu) (hpv : pv ≤ κv) (hκu : κu < su) (hκv : κv < sv) (hlen : P.length = su * sv) (hP : NetOk d P)
+    (hmu : Monotone Uu) (hmv : Monotone Uv) (hspu : Uu κu < Uu (κu+1)) (hspv : Uv κv < Uv (κv+1))
+    (hkl : k + l ≤ order) :
+    ((surfaceDersA38 pu pv Uu Uv su sv P κu κv u v order).getD k []).getD l []
+      = ((surfaceDersA36 pu pv Uu Uv sv P κu κv u v order).getD k []).getD l [] :=
+  Geomdl.surface_evaluators_as_coded_agree pu pv Uu Uv su sv P κu κv u v d order k l hpu hpv hκu hκv hlen hP hmu hmv
+    hspu hspv hkl
+
+/-- **Chain rule for the DEFAULT curve evaluator as coded** (`CurveEvaluator.derivatives` = `curveDersA32`, what
+    `BSpline.Curve.derivatives` runs, on the span the search finds): with knots `a•U + b` (`a > 0`) at `a·u + b`, entry `k`,
+    coordinate `j`, is `a⁻ᵏ` times the entry for `U` at `u` – every `u` of the closed domain of a well-formed curve,
+    every `k ≤ order`. -/
+theorem default_curve_derivatives_affine_knots (p : ℕ) (U : ℕ → K) (P : List (List K)) (u : K) (d order k j : ℕ)
+    (a b : K) (ha : 0 < a) (hP : NetOk d P) (hU : KnotsOk p U P.length) (hlo : U p ≤ u) (hhi : u ≤ U P.length)
+    (hk : k ≤ order) :
+    ((curveDersA32 p (fun i => a * U i + b) P (findSpanLinear p (fun i => a * U i + b) P.length (a * u + b)) (a * u + b)
+        order).getD k []).getD j 0
+      = a⁻¹ ^ k * ((curveDersA32 p U P (findSpanLinear p U P.length u) u order).getD k []).getD j 0 :=
+  curveDersA32_affine p U P u d order k j a b ha hP hU hlo hhi hk
+
+/-- **Chain rule for the DEFAULT surface evaluator as coded** (`SurfaceEvaluator.derivatives` = `surfaceDersA36` on the
+    spans the searches find): the whole table, entry `[k][l]` multiplied by `a₁⁻ᵏ·a₂⁻ˡ` – every `(u, v)` of the closed
+    domain of a well-formed surface. -/
+theorem default_surface_derivatives_affine_knots (pu pv : ℕ) (Uu Uv : ℕ → K) (su sv : ℕ) (P : List (List K)) (u v : K)
+    (d order : ℕ) (a1 b1 a2 b2 : K) (h1 : 0 < a1) (h2 : 0 < a2) (hlen : P.length = su * sv) (hP : NetOk d P)
+    (hUu : KnotsOk pu Uu su) (hUv : KnotsOk pv Uv sv)
+    (hu1 : Uu pu ≤ u) (hu2 : u ≤ Uu su) (hv1 : Uv pv ≤ v) (hv2 : v ≤ Uv sv) :
+    surfaceDersA36 pu pv (fun i => a1 * Uu i + b1) (fun i => a2 * Uv i + b2) sv P
+        (findSpanLinear pu (fun i => a1 * Uu i + b1) su (a1 * u + b1))
+        (findSpanLinear pv (fun i => a2 * Uv i + b2) sv (a2 * v + b2)) (a1 * u + b1) (a2 * v + b2) order
+      = scaleJet2 a1⁻¹ a2⁻¹ (surfaceDersA36 pu pv Uu Uv sv P (findSpanLinear pu Uu su u) (findSpanLinear pv Uv sv v)
+          u v order) :=
+  surfaceDersA36_affine pu pv Uu Uv su sv P u v d order a1 b1 a2 b2 h1 h2 hlen hP hUu hUv hu1 hu2 hv1 hv2
 
 /-! ### knot operations under an affine change of the knot range -/
 
@@ -275,7 +321,8 @@ theorem insertion_affine_knots (p : ℕ) (U : ℕ → K) (P : List (List K)) (u 
     knotInsertion p (fun i => a * U i + b) P (a * u + b) r s k = knotInsertion p U P u r s k :=
   knotInsertion_affine p U P u r s k a b ha
 
-/-- … and `knot_insertion_kv` returns the mapped knot vector. -/
+/-- … and `knot_insertion_kv` returns the mapped knot vector (a `List.map` congruence: the function only splices the
+    list, so the same holds for ANY map in place of `x ↦ a·x + b`). -/
 theorem insertion_kv_affine_knots (U : List K) (u : K) (span r : ℕ) (a b : K) :
     knotInsertionKv (U.map (fun x => a * x + b)) (a * u + b) span r
       = (knotInsertionKv U u span r).map (fun x => a * x + b) :=
@@ -293,7 +340,7 @@ theorem removal_affine_knots (p : ℕ) (U : ℕ → K) (P : List (List K)) (u : 
     knotRemoval p (fun i => a * U i + b) P (a * u + b) num s r tol2 = knotRemoval p U P u num s r tol2 :=
   knotRemoval_affine p U P u num s r tol2 a b ha
 
-/-- … and `knot_removal_kv` returns the mapped knot vector. -/
+/-- … and `knot_removal_kv` returns the mapped knot vector (again a `List.map` congruence, true for any map). -/
 theorem removal_kv_affine_knots (U : List K) (span r : ℕ) (a b : K) :
     knotRemovalKv (U.map (fun x => a * x + b)) span r = (knotRemovalKv U span r).map (fun x => a * x + b) :=
   knotRemovalKv_map (fun x => a * x + b) U span r
@@ -374,29 +421,32 @@ theorem remove_knot_affine_knots_fixed_tolerance (S : Shape K) (dir : ℕ) (u : 
 /-! ### the binary span search never fails on the domain -/
 
 /-- **Selecting the binary span search never makes a valid call fail**: for every parameter of the domain
-    `U p ≤ u ≤ U n` (`n ≥ p + 1` control points) and every tolerance `≥ 0`, `find_span_binsearch` returns – the model's
-    fuel is never exhausted – for ANY knot function (neither sortedness nor the F-17b tolerance hypothesis of
-    `span_search_choice` is needed for this part). -/
+    `U p ≤ u ≤ U n` (`n ≥ p + 1` control points) and every tolerance `0 < tol < 1/2` (`htol`, `htol2`: the range on which
+    the model's start index `(p + n + 1) / 2` is the code's `int(round((low + high) / 2 + tol))`; the shipped value is
+    `10e-6`.  With `tol = 9` the real code starts at `mid = 16` on a 15-knot vector and raises `IndexError`),
+    `find_span_binsearch` returns – the model's fuel is never exhausted – for ANY knot function (neither sortedness
+    nor the F-17b tolerance hypothesis of `span_search_choice` is needed for this part). -/
 theorem binary_search_never_fails (p : ℕ) (U : ℕ → K) (n : ℕ) (u tol : K) (hpn : p + 1 ≤ n)
-    (hlo : U p ≤ u) (hhi : u ≤ U n) (htol : 0 ≤ tol) : (findSpanBin p U n u tol).isSome = true :=
-  findSpanBin_isSome p U n u tol hpn hlo hhi htol
+    (hlo : U p ≤ u) (hhi : u ≤ U n) (htol : 0 < tol) (htol2 : 2 * tol < 1) : (findSpanBin p U n u tol).isSome = true :=
+  findSpanBin_isSome p U n u tol hpn hlo hhi htol.le
 
 /-- What it returns: `n - 1` inside the tolerance shortcut at the domain end, otherwise an index whose
     half-open knot interval contains the parameter. -/
 theorem binary_search_result (p : ℕ) (U : ℕ → K) (n : ℕ) (u tol : K) (hpn : p + 1 ≤ n)
-    (hlo : U p ≤ u) (hhi : u ≤ U n) (htol : 0 ≤ tol) :
+    (hlo : U p ≤ u) (hhi : u ≤ U n) (htol : 0 < tol) (htol2 : 2 * tol < 1) :
     ∃ k, findSpanBin p U n u tol = some k ∧
       ((absK (U n - u) ≤ tol ∧ k = n - 1) ∨ (¬ absK (U n - u) ≤ tol ∧ U k ≤ u ∧ u < U (k+1))) :=
-  findSpanBin_returns p U n u tol hpn hlo hhi htol
+  findSpanBin_returns p U n u tol hpn hlo hhi htol.le
 
 /-- On a sorted knot vector the returned index is a legal span index (`p ≤ k < n`), so every evaluator that
     uses it indexes inside the control net. -/
 theorem binary_search_returns_legal_span (p : ℕ) (U : ℕ → K) (n : ℕ) (u tol : K) (hpn : p + 1 ≤ n) (hm : Monotone U)
-    (hlo : U p ≤ u) (hhi : u ≤ U n) (htol : 0 ≤ tol) :
+    (hlo : U p ≤ u) (hhi : u ≤ U n) (htol : 0 < tol) (htol2 : 2 * tol < 1) :
     ∃ k, findSpanBin p U n u tol = some k ∧ p ≤ k ∧ k < n :=
-  findSpanBin_in_range p U n u tol hpn hm hlo hhi htol
+  findSpanBin_in_range p U n u tol hpn hm hlo hhi htol.le
 
-/-- The binary search is itself independent of the knot range (tolerance scaled with the range). -/
+/-- The binary search is itself independent of the knot range (tolerance scaled with the range; an equality of two
+    model evaluations – each side is the code's routine only when its tolerance lies in `(0, 1/2)`, see above). -/
 theorem binary_search_affine_knots (p : ℕ) (U : ℕ → K) (n : ℕ) (u tol a b : K) (ha : 0 < a) :
     findSpanBin p (fun i => a * U i + b) n (a * u + b) (a * tol) = findSpanBin p U n u tol :=
   findSpanBin_affine p U n u tol a b ha
@@ -427,12 +477,22 @@ example : curveDers 2 (fnOf (knotNormalize cfgKv)) cfgNet ((3/2 - 0) / (5 - 0)) 
   have h := curve_derivatives_normalized_knots 2 cfgKv cfgNet (3/2) 2 (by decide) (by decide +kernel)
   simpa [cfgKv] using h
 
-/-- evaluator families, instantiated on the span `[1, 2)` (index 3), second derivative, coordinate 1 -/
-example : ∑ r ∈ Finset.range (2+1), ((basisFunsDersA23 2 (fnOf cfgKv) 3 (3/2) 2).getD 2 []).getD r 0
-      * (ptsGet cfgNet (3 - 2 + r)).getD 1 0
+/-- evaluators as coded, instantiated on the span `[1, 2)` (index 3): second derivative and the (zero) third one,
+    coordinate 1 -/
+example : ((curveDersA32 2 (fnOf cfgKv) cfgNet 3 (3/2) 3).getD 2 []).getD 1 0
     = ((curveDersAt 2 (fnOf cfgKv) cfgNet 3 (3/2) 3).getD 2 []).getD 1 0 :=
-  curve_evaluator_families_agree 2 (fnOf cfgKv) cfgNet 3 (3/2) 3 2 3 2 1 (by omega) (by omega) (by decide)
-    cfgNet_ok cfgKv_mono (by decide +kernel) (by omega) (by omega)
+  curve_evaluators_as_coded_agree 2 (fnOf cfgKv) cfgNet 3 (3/2) 3 1 3 2 (by omega) (by decide)
+    cfgNet_ok cfgKv_mono (by decide +kernel) (by omega)
+example : (curveDersA32 2 (fnOf cfgKv) cfgNet 3 (3/2) 3).getD 2 [] = (curveDersAt 2 (fnOf cfgKv) cfgNet 3 (3/2) 3).getD 2 []
+    ∧ (curveDersA32 2 (fnOf cfgKv) cfgNet 3 (3/2) 3).getD 2 [] ≠ [0, 0, 0] := by decide +kernel
+
+/-- the default evaluator under `x ↦ 3·x + 7`, at the right end `u = 5` of the domain, first derivative -/
+example (j : ℕ) :
+    ((curveDersA32 2 (fun i => 3 * fnOf cfgKv i + 7) cfgNet
+        (findSpanLinear 2 (fun i => 3 * fnOf cfgKv i + 7) cfgNet.length (3 * 5 + 7)) (3 * 5 + 7) 2).getD 1 []).getD j 0
+      = (3 : ℚ)⁻¹ ^ 1 * ((curveDersA32 2 (fnOf cfgKv) cfgNet (findSpanLinear 2 (fnOf cfgKv) cfgNet.length 5) 5 2).getD 1 []).getD j 0 :=
+  default_curve_derivatives_affine_knots 2 (fnOf cfgKv) cfgNet 5 3 2 1 j 3 7 (by norm_num) cfgNet_ok
+    ⟨cfgKv_mono, by decide, by decide +kernel⟩ (by decide +kernel) (by decide +kernel) (by omega)
 
 /-- insertion of `3/2 ↦ 23/2` twice: same control points -/
 example : knotInsertion 2 (fun i => 3 * fnOf cfgKv i + 7) cfgNet (3 * (3/2) + 7) 2 0 3
@@ -468,7 +528,7 @@ example : findSpanBin 2 (fnOf cfgKv) 7 5 (1/100) = some 6 ∧ findSpanBin 2 (fnO
 
 example : (findSpanBin 2 (fnOf cfgKv) 7 (3/2) (1/100)).isSome = true :=
   binary_search_never_fails 2 (fnOf cfgKv) 7 (3/2) (1/100) (by omega) (by decide +kernel) (by decide +kernel)
-    (by norm_num)
+    (by norm_num) (by norm_num)
 
 end witness
 
